@@ -1,29 +1,42 @@
-//! A flag that can be raised to wake a task.
+//! A flag that can be raised to wake tasks.
 //!
-//! Copied wholesale from <https://docs.rs/futures/latest/futures/task/struct.AtomicWaker.html>
-//! unfortunately not aware of crated version!
+//! Any number of tasks may wait on clones of the same flag: each waiting clone registers its own
+//! waker, and raising the flag wakes them all.
 
 use std::{
 	pin::Pin,
 	sync::{
 		atomic::{AtomicBool, Ordering::Relaxed},
-		Arc,
+		Arc, Mutex,
 	},
 };
 
 use futures::{
 	future::Future,
-	task::{AtomicWaker, Context, Poll},
+	task::{Context, Poll, Waker},
 };
 
 #[derive(Debug)]
 struct Inner {
-	waker: AtomicWaker,
+	wakers: Mutex<Vec<Option<Waker>>>,
 	set: AtomicBool,
 }
 
-#[derive(Clone, Debug)]
-pub struct Flag(Arc<Inner>);
+#[derive(Debug)]
+pub struct Flag {
+	inner: Arc<Inner>,
+	/// This clone's slot in `wakers`, once it has been polled.
+	slot: Option<usize>,
+}
+
+impl Clone for Flag {
+	fn clone(&self) -> Self {
+		Self {
+			inner: self.inner.clone(),
+			slot: None,
+		}
+	}
+}
 
 impl Default for Flag {
 	fn default() -> Self {
@@ -33,36 +46,69 @@ impl Default for Flag {
 
 impl Flag {
 	pub fn new(value: bool) -> Self {
-		Self(Arc::new(Inner {
-			waker: AtomicWaker::new(),
-			set: AtomicBool::new(value),
-		}))
+		Self {
+			inner: Arc::new(Inner {
+				wakers: Mutex::new(Vec::new()),
+				set: AtomicBool::new(value),
+			}),
+			slot: None,
+		}
 	}
 
 	pub fn raised(&self) -> bool {
-		self.0.set.load(Relaxed)
+		self.inner.set.load(Relaxed)
 	}
 
 	pub fn raise(&self) {
-		self.0.set.store(true, Relaxed);
-		self.0.waker.wake();
+		self.inner.set.store(true, Relaxed);
+		let wakers = std::mem::take(&mut *self.inner.wakers.lock().expect("flag lock poisoned"));
+		for waker in wakers.into_iter().flatten() {
+			waker.wake();
+		}
+	}
+}
+
+impl Drop for Flag {
+	fn drop(&mut self) {
+		if let Some(slot) = self.slot {
+			if let Ok(mut wakers) = self.inner.wakers.lock() {
+				if let Some(waker) = wakers.get_mut(slot) {
+					*waker = None;
+				}
+			}
+		}
 	}
 }
 
 impl Future for Flag {
 	type Output = ();
 
-	fn poll(self: Pin<&mut Self>, cx: &mut Context<'_>) -> Poll<()> {
+	fn poll(mut self: Pin<&mut Self>, cx: &mut Context<'_>) -> Poll<()> {
 		// quick check to avoid registration if already done.
-		if self.0.set.load(Relaxed) {
+		if self.inner.set.load(Relaxed) {
 			return Poll::Ready(());
 		}
 
-		self.0.waker.register(cx.waker());
+		{
+			let inner = self.inner.clone();
+			let mut wakers = inner.wakers.lock().expect("flag lock poisoned");
+			match self.slot.and_then(|slot| wakers.get_mut(slot)) {
+				Some(Some(waker)) if waker.will_wake(cx.waker()) => {}
+				Some(waker) => *waker = Some(cx.waker().clone()),
+				None => {
+					let slot = wakers.iter().position(Option::is_none).unwrap_or_else(|| {
+						wakers.push(None);
+						wakers.len() - 1
+					});
+					wakers[slot] = Some(cx.waker().clone());
+					self.slot = Some(slot);
+				}
+			}
+		}
 
-		// Need to check condition **after** `register` to avoid a race
+		// Need to check condition **after** registering to avoid a race
 		// condition that would result in lost notifications.
-		if self.0.set.load(Relaxed) {
+		if self.inner.set.load(Relaxed) {
 			Poll::Ready(())
 		} else {
 			Poll::Pending
